@@ -4,7 +4,7 @@
    Per op: the result line, the event line "e ..." (allocator / lifetime events of that op) and the raw table line
      t <block id of _table, 0 = nullptr> <_capacity> <_size> <bucket>=<block id>:<key>:<value>,<block id>:<key>:<value> ...
    (non-empty buckets only, every chain head to tail) -- the same three lines the harness prints from the real object.
-   After the last op: "dtor" and the destructor's event line.
+   After the last op: "dtor" and the destructor's event line.  Raw scripts additionally use "rh" (p_rehash called directly).
    "assert" / "nullderef" / "ub" / "fuel" end the case (the refinement theorem excludes all four on every script).
    Fuel of every call: fuel_for s = _capacity + 2 * _size + 11 (HashMapPtr.v).
    The model's node heap is a function nat -> pnode option built from point updates; after every op the driver
@@ -83,7 +83,17 @@ let body lines =
         | ["sz"] -> Some Size
         | _ -> None in
       match o with
-      | None -> ()
+      | None ->
+        (* raw scripts: "rh" = the private rehash() called directly *)
+        if words l = ["rh"] then
+          (match p_rehash hash psz (fuel_for !s) !s with
+           | POk (s', evs) ->
+             s := tabulate s';
+             print_string "u\n"; print_string (show_evs evs); print_string (table_line !s)
+           | PAssertStop -> stop "assert"
+           | PNullDeref -> stop "nullderef"
+           | PUB -> stop "ub"
+           | POutOfFuel -> stop "fuel")
       | Some o ->
         (match p_step hash psz nsz (fuel_for !s) !s o with
          | POk ((s', out), evs) ->
